@@ -37,9 +37,10 @@ pub fn bounds(tier: Tier) -> Vec<ConvBound> {
     match tier {
         Tier::Quick => vec![
             mk(Fam::Map, 1, vec![rc(1, true), rc(2, true)], 3, 0),
-            mk(Fam::Map, 0, vec![rc(2, true), rc(1, true)], 4, 0),
-            mk(Fam::Map, 0, vec![rc(1, true), rc(2, true), rc(3, true)], 3, 0),
-            mk(Fam::Map, 0, vec![rc(3, true), rc(1, true), rc(2, true)], 3, 0),
+            mk(Fam::Map, 0, vec![rc(2, true), rc(1, true)], 5, 0),
+            mk(Fam::Map, 0, vec![rc(1, false), rc(2, true)], 5, 0),
+            mk(Fam::Map, 1, vec![rc(1, true), rc(2, true), rc(3, true)], 3, 0),
+            mk(Fam::Map, 0, vec![rc(3, true), rc(1, true), rc(2, true)], 4, 0),
             mk(Fam::Nest, 0, vec![rc(1, true), rc(2, false)], 3, 0),
         ],
         Tier::Thorough => vec![
